@@ -36,6 +36,7 @@ type ackObs struct {
 	holders   map[string]string // replica id -> value it holds at ack.Offset ("<none>", "<down>"), for every replica
 	believed  map[string]int64  // in-sync replica id -> newest offset the leader believes it holds
 	leading   bool              // the sender still leads the partition at this instant
+	raftIndex uint64            // metadata operations committed at this instant
 	leaderVal string
 }
 
@@ -164,7 +165,7 @@ func (c *cluster) tap(conn *nats.Conn, subject, reply string, data []byte) {
 	if r == nil || src == nil {
 		return
 	}
-	o := &ackObs{ack: ack, from: src.idx, step: c.h.s.Steps, holders: map[string]string{}, believed: map[string]int64{}}
+	o := &ackObs{ack: ack, from: src.idx, step: c.h.s.Steps, holders: map[string]string{}, believed: map[string]int64{}, raftIndex: c.h.cluster.CommitIndex()}
 	if st := src.srv.metadata.streams[clStream]; st != nil { // (no locks: the sender may hold them)
 		if p := st.partitions[0]; p != nil {
 			o.epoch = p.LeaderEpoch
@@ -494,4 +495,28 @@ func (c *cluster) trace(conn *nats.Conn, subject, reply string, data []byte) {
 			c.h.s.Logf("%s -> leader-epoch offset response to %s: end-offset=%d", who, subject, r.EndOffset)
 		}
 	}
+}
+
+// isrChanges lists the committed ISR changes of a replica: index -> +1 (expand) / -1 (shrink).
+func (c *cluster) isrChanges(replica string) (shrinks, expands []uint64) {
+	for _, e := range c.h.cluster.Log {
+		if e.Type != raft.LogCommand {
+			continue
+		}
+		op := &proto.RaftLog{}
+		if op.Unmarshal(e.Data) != nil {
+			continue
+		}
+		switch op.Op {
+		case proto.Op_SHRINK_ISR:
+			if op.ShrinkISROp.ReplicaToRemove == replica {
+				shrinks = append(shrinks, e.Index)
+			}
+		case proto.Op_EXPAND_ISR:
+			if op.ExpandISROp.ReplicaToAdd == replica {
+				expands = append(expands, e.Index)
+			}
+		}
+	}
+	return
 }
